@@ -377,7 +377,7 @@ func zvC16Seeds(r *vh.Run) []zvC16Seed {
 	add("hand-update-addpath-classic", zvC16Update(
 		[]byte{0, 0, 0, 7, 16, 10, 9, 0, 0, 0, 8, 0},
 		zvC16Cat(origin, aspath2, nexthop),
-		[]byte{0, 0, 0, 1, 24, 192, 0, 2, 0, 0, 0, 1, 2, 25, 192, 0, 2, 128},
+		[]byte{0, 0, 0, 1, 24, 192, 0, 2, 0, 0, 1, 2, 25, 192, 0, 2, 128},
 	), DecodeOptions{AddPathIPv4Unicast: true})
 	nh32 := zvC16Cat([]byte{0x20, 0x01, 0x0d, 0xb8, 0, 0, 0, 0, 0, 0, 0, 0, 0, 0, 0, 1}, []byte{0xfe, 0x80, 0, 0, 0, 0, 0, 0, 0, 0, 0, 0, 0, 0, 0, 1})
 	add("hand-update-mpreach6-nh32", zvC16Update(nil,
@@ -394,8 +394,10 @@ func zvC16Seeds(r *vh.Run) []zvC16Seed {
 		nil), DecodeOptions{ExtendedNextHop: true})
 	add("hand-update-mpunreach", zvC16Update(nil,
 		zvC16Cat(zvC16Attr(0x80, 15, []byte{0, 2, 1, 32, 0x20, 0x01, 0x0d, 0xb8, 0, 48, 0x20, 0x01, 0x0d, 0xb8, 0xab, 0xcd}),
-			zvC16Attr(0x80, 15, []byte{0, 1, 4, 48, 0x80, 0, 0, 10, 9, 8})),
+			zvC16Attr(0x80, 15, []byte{0, 1, 4, 48, 0x80, 0, 1, 10, 9, 8})),
 		nil), DecodeOptions{})
+	// RFC 3107 withdrawal label 0x800000 (no bottom-of-stack bit); the repo decoder keeps reading labels
+	add("hand-update-mpunreach-labeled-rfc3107", zvC16Update(nil, zvC16Attr(0x80, 15, []byte{0, 1, 4, 48, 0x80, 0, 0, 10, 9, 8}), nil), DecodeOptions{})
 	add("hand-update-mp-eor", zvC16Update(nil, zvC16Attr(0x80, 15, []byte{0, 2, 1}), nil), DecodeOptions{})
 	{
 		v := make([]byte, 300)
@@ -649,6 +651,7 @@ type zvC16Ctx struct {
 	nontriv  int
 	maxBatch uint64
 	maxOne   uint64
+	lastGC   uint64
 	wall     map[string]time.Duration // informational only (where the time goes), never an oracle
 }
 
@@ -702,6 +705,15 @@ func zvC16MsgType(in []byte) string {
 	return "other"
 }
 
+// gcMaybe is called right after a ReadMemStats into x.ms.
+func (x *zvC16Ctx) gcMaybe() {
+	if x.ms.TotalAlloc-x.lastGC > 192<<20 {
+		runtime.GC()
+		runtime.ReadMemStats(&x.ms)
+		x.lastGC = x.ms.TotalAlloc
+	}
+}
+
 func (x *zvC16Ctx) measure(in []byte, opt *DecodeOptions) uint64 {
 	best := ^uint64(0)
 	for i := 0; i < 3; i++ {
@@ -712,6 +724,7 @@ func (x *zvC16Ctx) measure(in []byte, opt *DecodeOptions) uint64 {
 		if d := x.ms.TotalAlloc - a; d < best {
 			best = d
 		}
+		x.gcMaybe()
 	}
 	return best
 }
@@ -779,6 +792,7 @@ func (x *zvC16Ctx) input(seed, kind, detail string, in []byte) {
 	}
 	runtime.ReadMemStats(&x.ms)
 	d := x.ms.TotalAlloc - a0
+	x.gcMaybe()
 	if d > x.maxBatch {
 		x.maxBatch = d
 	}
@@ -816,9 +830,11 @@ func TestVerifC16(t *testing.T) {
 	r.Require("decode_ok", "decode_err", "decode_ok_open", "decode_ok_update", "decode_ok_notification", "decode_ok_keepalive", "mut_byte", "mut_trunc", "mut_field", "mut_grow", "mut_tiny", "ok_under_some_options_only")
 	x := &zvC16Ctx{r: r, opts: zvC16Opts(), cnt: map[string]int{}, outcomes: map[string]struct{}{}, wall: map[string]time.Duration{}}
 	defer x.flush()
-	// The live heap is tiny and the decoder produces ~1.5 KiB of garbage per call;
-	// collect less often (does not influence TotalAlloc).
-	defer debug.SetGCPercent(debug.SetGCPercent(1000))
+	// ReadMemStats waits for a running concurrent GC cycle, which costs far more
+	// than the decodes themselves. The live heap is tiny, so the automatic GC is
+	// switched off and gcMaybe() collects synchronously every 192 MiB of garbage
+	// (has no influence on TotalAlloc).
+	defer debug.SetGCPercent(debug.SetGCPercent(-1))
 
 	if r.IsReplay() {
 		var c zvC16Case
@@ -863,6 +879,7 @@ func TestVerifC16(t *testing.T) {
 			x.cnt["seeds_valid_under_own_options"]++
 		} else {
 			x.cnt["seeds_rejected_under_own_options"]++
+			r.Extra("seed_rejected:"+s.Name, fmt.Sprint(res.err, res.what))
 		}
 		x.input(s.Name, "seed", "unchanged", s.B)
 		x.cnt["fields_found"] += len(s.Fields)
